@@ -12,6 +12,13 @@
    {1000, 5000} where the K = 5000 bound is not already implied at K = 100 + a seeded sample; epsilon = 0),
    CAGrad(c in {1, 1.5, 3}); the inequality of the statement is evaluated with the code's own weights, the
    specification's exact minnorm^2 and s^2 <= L+1; float32 (thorough) and CAGrad at predicate level.
+   BADLY SCALED family (spec/EpsScale.tla, DualCone.tla section "badly scaled"): J = 2^e D_r J0 D_c with rows / columns
+   scaled by eps = 2^-P; the exponents are carried symbolically (polynomials in eps, sign rule valid for every
+   P >= needP), TLC decides the bracket of s^2 (sixteenths of the trace, Sylvester), the hull's squared distance d2
+   (MGDA's min-norm value, Pareto-stationarity) and checks that the analysis refines MinNorm's on unscaled instances;
+   a hash sample of all matrices (seed-rotated) plus seeded random instances with any scaling pattern are
+   instantiated at P in {5, 7, 8, 9, 12, 16} and run on UPGrad / DualProj / MGDA / CAGrad(c in {1, 1.5, 3}) with the SAME
+   inequalities and allowances; CAGrad where d2/tr >= 1e-6 is decided (clearly non-stationary), counted otherwise.
 3. C -> S: F2 episodes validated by TraceDualCone (the cone constraint ((qG + p s^2 I) w)_i >= 0 of the logged
    weights, exactly); MGDA episodes on random integer matrices (entries -4..4, all budgets up to 5000) validated by
    TraceMinNorm (exact minnorm^2 and s^2 bracket; rate, entry allowance, hull membership).
@@ -85,7 +92,7 @@ def run(ctx: Ctx, replay: str | None) -> None:
     ctx.rule = ("one case = (aggregator in {UPGrad, DualProj, MGDA, CAGrad}, integer matrix J0 of the TLC family, "
                 "parameters (pref vector, eps pair | max_iters | c), scale 2^e) with s >= norm_eps; non-trivial = J0 has two "
                 "rows with a negative inner product; badly scaled family: J = 2^e D_r J0 D_c with rows / columns scaled by "
-                "2^-P (P in {5, 7, 8, 9}: singular values up to 4^P apart), non-trivial = conflicting and not Pareto-stationary")
+                "2^-P (P in {5, 7, 8, 9, 12, 16}: singular values up to 4^P apart), non-trivial = conflicting and not Pareto-stationary")
     ctx.assumptions += [
         "s^2 is bracketed exactly by the specification (L <= s^2 < L+1, Sylvester); allowances use the upper end, "
         "which can only enlarge them by a factor < (L+1)/L",
